@@ -129,7 +129,10 @@ func ruleEN1(c *Ctx) *rule {
 					firstSpok = j
 				}
 			}
+			reordered := c.sliceMutation(site.Common().Args[0], 2, map[ssa.Value]bool{}, "the environment list")
 			switch {
+			case reordered != "":
+				r.bad(key, c.ipos(site), reordered+": which of two entries with the same name comes last (and therefore wins) no longer depends on where they came from")
 			case firstSpok < 0:
 				r.bad(key, c.ipos(site), "the runner's env parameter (the spokfile's variables) does not reach the interpreter's environment")
 			case lastAmbient < 0:
@@ -784,7 +787,7 @@ func envProperties() []*propertySpec {
 			Explanation: "Static data-flow analysis: EN1 flattens the nested append that builds the argument of expand.ListEnviron and proves that the os.Environ()-derived part precedes the part derived from the runner's env parameter (library contract: last duplicate wins); EN2 proves the chain SpokFile.Vars -> key+\"=\"+value of the same map entry -> Task.Run -> Runner.Run -> ListEnviron -> interp.Env -> interp.New link by link; EN3 proves by backward slicing (with object flow through the template and buffer objects) that Task.Commands is the output of text/template Execute over the AST command text with the variables map as data; EN4 that file.New files each variable under its identifier with the literal/builtin value and that a builtin error is propagated.",
 			NotCovered:  []string{"value semantics of join/exec (unit-tested) and of text/template itself", "quoting of values inside the shell"},
 			Assumptions: []string{"mvdan.cc/sh/v3/expand.ListEnviron: for duplicate names the last one wins (environ.go)", "godotenv.Load never overrides an ambient variable and only touches the process environment"},
-			Rules:       []func(*Ctx) *rule{ruleEN1, ruleEN2, ruleEN3, ruleEN4, ruleEN5, ruleEN6}},
+			Rules:       []func(*Ctx) *rule{ruleEN1, ruleEN2, ruleEN3, ruleEN4, ruleEN5, ruleEN6, ruleTK4, rulePS1}},
 	}
 }
 
